@@ -1,0 +1,35 @@
+//! Facade and event taps for `comms` (Gate / Link / DirectLink), used by the
+//! external verification harness (property C08).
+//!
+//! `ev(name, id)` is called (cfg-guarded, add-only) from inside `comms.rs` at
+//! the places where the shared subscription maps are read or edited and where
+//! commands are taken off a command queue. It is a no-op unless the calling
+//! thread installed a handler; a handler may record the event and/or block the
+//! calling thread (pause point), which lets a harness force and record an
+//! interleaving of publishers, the command processor and links.
+
+use std::cell::RefCell;
+use std::sync::Arc;
+use uuid::Uuid;
+
+pub use crate::comms::verif_hooks::*;
+
+pub type EvFn = Arc<dyn Fn(&'static str, Option<Uuid>) + Send + Sync>;
+
+thread_local! {
+    static EV: RefCell<Option<EvFn>> = const { RefCell::new(None) };
+}
+
+/// Installs (or clears) the event handler of the calling thread.
+pub fn set_event_handler(f: Option<EvFn>) {
+    EV.with(|p| *p.borrow_mut() = f);
+}
+
+/// A named event / pause point carrying an optional slot or clone id.
+#[inline]
+pub fn ev(name: &'static str, id: Option<Uuid>) {
+    let f = EV.with(|p| p.borrow().clone());
+    if let Some(f) = f {
+        f(name, id)
+    }
+}
